@@ -1807,12 +1807,13 @@ func parallel(n int, f func(i int)) {
 }
 
 func TestCheck(t *testing.T) {
-	run := ev.Start("C10", "hist: seeded sequences of Put/Delete/PutBatch (mixed puts and deletes, deletes of absent keys and of whole sub-tries)/Flush/Collapse(d)/reopen-from-root-hash/Get/GetProof/Find on tries in ModeAll, ModeLatest and ModeGC over 5-14 keys built to share long nibble prefixes, be prefixes of each other, reach the maximum length and carry empty and equal values; the root is compared with a fresh trie after every operation and reads (Get, Find, TrieStore.Get/Seek, proofs) with a reference sorted map at flushed points; a case is one sequence, distinct by (mode, operation/outcome sequence), non-trivial if a batch deleted present keys from a non-empty trie or a mutation went through hash nodes. proof: one trie per case, proofs of all present keys plus seeded tamperings verified against present, absent, neighbouring, empty and over-long keys; distinct by (mode, key count, proof depths), non-trivial if some proof has >= 3 nodes")
+	run := ev.Start("C10", "hist: seeded sequences of Put/Delete/PutBatch (mixed puts and deletes, deletes of absent keys and of whole sub-tries)/Flush/Collapse(d)/reopen-from-root-hash/Get/GetProof/Find on tries in ModeAll, ModeLatest and ModeGC over 5-14 keys built to share long nibble prefixes, be prefixes of each other, reach the maximum length and carry empty, equal and large values; every 4th sequence uses only what a node applies to its live trie (PutBatch; Flush; sometimes Collapse(10)); the root is compared with a fresh trie after every operation and reads (Get, Find, TrieStore.Get/Seek, proofs) with a reference sorted map at flushed points; a case is one sequence, distinct by (mode, operation/outcome sequence), non-trivial if a batch deleted present keys from a non-empty trie or a mutation went through hash nodes. proof: one trie per case, proofs of all present keys plus seeded tamperings verified against present, absent, neighbouring, empty and over-long keys; distinct by (mode, key count, proof depths), non-trivial if some proof has >= 3 nodes")
 	defer run.Finish()
 	run.Assume("the reference is a Go map plus sorting; the canonical form (doc.go invariants, node serialisation, double SHA-256) is re-implemented in the harness and must agree with the fresh trie built by single Puts")
 	run.Assume("Collapse, reopen and Find on the live trie are always preceded by Flush (documented precondition); batches never contain the empty key or over-long keys/values (Put rejects them, production never produces them)")
 	run.Assume("for backward TrieStore.Seek with a non-empty Start both documented readings (with or without keys extending Prefix+Start) are accepted")
 	run.Assume("proof soundness rests on SHA-256; the fuzz looks for structural acceptance paths only")
+	run.Note("signatures", "a wrong root / live read that disappears when the same history is re-executed with Flush + reopen-from-root-hash after every PutBatch is reported as history-dependence:in-memory-nodes-left-by-putbatch (symptom kept in the witness); wrong answers of reads on reopened tries do not end the history")
 	part := os.Getenv("VERIF_PART")
 	if part == "" {
 		part = "all"
